@@ -345,6 +345,12 @@ def handle (toks : List String) : P String := do
   | "dec.cuckoo" :: hex :: obs => decCheck Codec.decCuckoo showCuckooImg hex obs
   | "dec.topk" :: hex :: obs => decCheck Codec.decTopK showTopKImg hex obs
   -- Redis-level models -----------------------------------------------------------------------
+  | ["redis.keysof", kind, params, bases, changed] =>
+    match Redis.keysOfKind kind (← pNatList params) (← pStrList bases) with
+    | none => throw s!"keysof:{kind}"
+    | some ks =>
+      let bad := (← pStrList changed).filter (fun k => !ks.contains k)
+      pure (verdict bad.isEmpty s!"not-in-keysOf {showStrList bad}")
   | "redis" :: rest => Redis.handle rest
   | op :: rest => if op.startsWith "eq." then handleEq (op :: rest) else throw s!"unknown-op:{op}"
   | [] => throw "empty"
